@@ -585,6 +585,139 @@ fn wrappers(run: &mut Run) -> u64 {
     n
 }
 
+// ---- the error a failed composition reports, through the interface generic code has: Display and the
+// ---- `source()` chain of std::error::Error (that is all a caller sees once the error is boxed)
+
+#[derive(Debug, Clone, PartialEq, Eq)]
+struct LeafErr(String);
+impl std::fmt::Display for LeafErr {
+    fn fmt(&self, f: &mut std::fmt::Formatter<'_>) -> std::fmt::Result {
+        write!(f, "{}", self.0)
+    }
+}
+impl std::error::Error for LeafErr {}
+
+/// passes its input on, or fails with its own name
+#[derive(Clone)]
+struct Part(&'static str, bool);
+impl Composable for Part {}
+impl Operator<u64> for Part {
+    type Output = u64;
+    type Error = LeafErr;
+    fn apply<R: Rng + ?Sized>(&self, x: u64, _: &mut R) -> Result<u64, LeafErr> {
+        if self.1 {
+            Err(LeafErr(format!("part {} failed", self.0)))
+        } else {
+            Ok(x + 1)
+        }
+    }
+}
+#[derive(Clone)]
+struct Sum2;
+impl Composable for Sum2 {}
+impl Operator<(u64, u64)> for Sum2 {
+    type Output = u64;
+    type Error = LeafErr;
+    fn apply<R: Rng + ?Sized>(&self, x: (u64, u64), _: &mut R) -> Result<u64, LeafErr> {
+        Ok(x.0 + x.1)
+    }
+}
+#[derive(Clone)]
+struct Dup(usize);
+impl Composable for Dup {}
+impl Operator<u64> for Dup {
+    type Output = Vec<u64>;
+    type Error = LeafErr;
+    fn apply<R: Rng + ?Sized>(&self, x: u64, _: &mut R) -> Result<Vec<u64>, LeafErr> {
+        Ok(vec![x; self.0])
+    }
+}
+/// fails on the k-th element it sees
+struct FailAt(std::cell::Cell<usize>, usize);
+impl Composable for FailAt {}
+impl Operator<u64> for FailAt {
+    type Output = u64;
+    type Error = LeafErr;
+    fn apply<R: Rng + ?Sized>(&self, x: u64, _: &mut R) -> Result<u64, LeafErr> {
+        let k = self.0.get();
+        self.0.set(k + 1);
+        if k == self.1 {
+            Err(LeafErr(format!("element {k} failed")))
+        } else {
+            Ok(x)
+        }
+    }
+}
+
+fn chain_of(e: &(dyn std::error::Error + 'static)) -> Vec<String> {
+    let mut out = vec![e.to_string()];
+    let mut cur = e.source();
+    while let Some(c) = cur {
+        out.push(c.to_string());
+        cur = c.source();
+        if out.len() > 32 {
+            break;
+        }
+    }
+    out
+}
+
+/// For compositions whose failing part sits at nesting depth d: the chain of `source()` from the reported
+/// error has d + 1 links and ends at the failing part's own error; every link has a non-empty message; the
+/// same through `Box<dyn Error>`.
+fn error_chains(run: &mut Run) -> u64 {
+    let mut n = 0u64;
+    let mut rng = TapeRng::default();
+    let mut judge = |run: &mut Run, name: &str, r: Result<(), Box<dyn std::error::Error + 'static>>, depth: usize, root: &str| {
+        n += 1;
+        let what = match r {
+            Ok(()) => Some("the composition succeeded although a part failed".to_string()),
+            Err(e) => {
+                let chain = chain_of(e.as_ref());
+                if chain.last().map(String::as_str) != Some(root) {
+                    Some(format!("following source() from the reported error gives {chain:?}; it does not end at the failing part's error {root:?}"))
+                } else if chain.len() != depth + 1 {
+                    Some(format!("following source() from the reported error gives {} links {chain:?}, the failing part sits at depth {depth}", chain.len()))
+                } else if chain.iter().any(|m| m.trim().is_empty()) {
+                    Some(format!("an error of the chain has an empty message: {chain:?}"))
+                } else {
+                    None
+                }
+            }
+        };
+        if let Some(w) = what {
+            run.violation(format!("compose/error-chain/{}", name.split(' ').next().unwrap_or(name)), format!("{name}: {w}"), json!({"check":"C14","scenario":"error-chain","case":name}));
+        }
+    };
+    let ok = |n: &'static str| Part(n, false);
+    let bad = |n: &'static str| Part(n, true);
+    fn b<T, E: std::error::Error + 'static>(r: Result<T, E>) -> Result<(), Box<dyn std::error::Error + 'static>> {
+        r.map(|_| ()).map_err(|e| Box::new(e) as Box<dyn std::error::Error + 'static>)
+    }
+    judge(run, "then first", b(bad("f").then(ok("g")).apply(1, &mut rng)), 1, "part f failed");
+    judge(run, "then second", b(ok("f").then(bad("g")).apply(1, &mut rng)), 1, "part g failed");
+    judge(run, "and first", b(bad("f").and(ok("g")).apply(1, &mut rng)), 1, "part f failed");
+    judge(run, "and second", b(ok("f").and(bad("g")).apply(1, &mut rng)), 1, "part g failed");
+    judge(run, "and second, nested then second", b(ok("f").and(ok("g").then(bad("h"))).apply(1, &mut rng)), 2, "part h failed");
+    judge(run, "and first, nested then first", b(bad("f").then(ok("g")).and(ok("h")).apply(1, &mut rng)), 2, "part f failed");
+    judge(run, "then second, nested and second, nested then first", b(ok("e").then(ok("f").and(bad("g").then(ok("h"))).then(Sum2)).apply(1, &mut rng)), 4, "part g failed");
+    judge(run, "and second inside and second", b(ok("f").and(ok("g").and(bad("h"))).apply(1, &mut rng)), 2, "part h failed");
+    judge(run, "and first inside and first", b(bad("f").and(ok("g")).and(ok("h")).apply(1, &mut rng)), 2, "part f failed");
+    for (len, at) in [(1usize, 0usize), (3, 0), (3, 2), (300, 257)] {
+        judge(run, &format!("map vec of {len} failing at {at}"), b(Dup(len).then_map(FailAt(std::cell::Cell::new(0), at)).apply(1, &mut rng)), 2, &format!("element {at} failed"));
+    }
+    judge(run, "map pair second", b(ok("f").and(ok("g")).then_map(FailAt(std::cell::Cell::new(0), 1)).apply(1, &mut rng)), 2, "element 1 failed");
+    judge(run, "repeat second application", b(FailAt(std::cell::Cell::new(0), 1).apply_n_times::<3>().apply(1, &mut rng)), 0, "element 1 failed");
+    judge(run, "repeat inside and second", b(ok("f").and(FailAt(std::cell::Cell::new(0), 2).apply_n_times::<3>()).apply(1, &mut rng)), 1, "element 2 failed");
+    // through the erased layer the error is boxed: the chain is all that is left
+    {
+        let op: Box<dyn DynOperator<u64, Output = (u64, u64)>> = Box::new(ok("f").and(ok("g").then(bad("h"))));
+        let r = op.apply(1, &mut rng).map(|_| ()).map_err(|e| -> Box<dyn std::error::Error + 'static> { e });
+        judge(run, "boxed: and second, nested then second", r, 2, "part h failed");
+    }
+    n
+}
+
 pub fn run(run: &mut Run) {
     let depth = 3;
     // every tree up to depth 2 and a deterministic stride of the depth-3 trees
@@ -674,7 +807,7 @@ pub fn run(run: &mut Run) {
     for (k, w, r) in viols {
         run.violation(k, w, r);
     }
-    let w = wrappers(run);
+    let w = wrappers(run) + error_chains(run);
     run.states = ts.len() as u64;
     run.evaluations = total_plans + w;
     run.transitions = run.evaluations;
@@ -738,6 +871,16 @@ pub fn replay(v: &Value) -> bool {
         let n = r.violations.lock().unwrap().len();
         println!("wrapper checks: {n} violations");
         return n == 0;
+    }
+    if v["scenario"] == json!("error-chain") {
+        let mut r = Run::new("C14", "quick");
+        error_chains(&mut r);
+        let g = r.violations.lock().unwrap();
+        for (k, x) in g.iter() {
+            println!("MISMATCH [{k}]: {}", x.what);
+        }
+        println!("error chains: {} violations", g.len());
+        return g.is_empty();
     }
     let Some(t) = parse_tree(v["tree"].as_str().unwrap_or("")) else {
         println!("cannot parse tree");
